@@ -14,7 +14,8 @@ THEOREMS = ['Fsic.C10.' + n for n in [
     'locate_lt', 'label_get', 'label_set', 'label_set_frame', 'missing_label_keyerror', 'missing_label_keyerror_seq',
     'label_slice_positions', 'label_slice_open_ends', 'label_slice_get', 'label_slice_set',
     'access_paths_agree_reads', 'access_paths_agree_attribute_partial',
-    'access_paths_agree_attribute_false_at_witness', 'access_paths_agree_label_write',
+    'access_paths_agree_attribute_false_at_witness', 'add_variable_refuses_attribute_name',
+    'access_paths_agree_label_write',
     'access_paths_agree_pos_write', 'access_paths_agree_whole_write', 'access_paths_agree_slice_write']]
 RULE = ('every span of each type up to the length bound (ranges with non-zero origin and step, lists and tuples of '
         'strings, mixed hashables where 1 / 1.0 / True are one label, NumPy int and str arrays, pandas Index of '
@@ -29,7 +30,8 @@ RULE = ('every span of each type up to the length bound (ranges with non-zero or
 TRUSTED = ["pandas' own get_loc is outside the model: what the installed pandas returns for every label used is "
            "recorded by the harness (not through fsic) and fed to the model as the table Store.getLoc",
            'label identity is Python == / hash (labels reach the model as class numbers assigned with a dict)',
-           'NumPy basic indexing arr[a:b:s] (the model\'s pySlice is compared with Python slicing on every triple)']
+           'NumPy basic indexing arr[a:b:s] (the model\'s pySlice is compared with Python slicing on every triple)',
+           'behaviour switches of the model (Cfg.current) are probed by harness/reflect_container.py on every run']
 ASSUMPTIONS = ['labels identify periods: the oracle speaks about spans whose labels are pairwise distinct under == '
                '(spans with repeated labels are compared with the model only)',
                'pandas partial-string labels (a year in a quarterly PeriodIndex, a month in a DatetimeIndex) resolve '
